@@ -20,6 +20,23 @@ ADAPTERS = [
 SKIP = {"new", "get_ref", "get_mut"}   # constructors / guard accessors are not delegations
 
 
+# daemon-side handler (handler.rs): request handlers that only pass their arguments on to the device backend. Expected body (white
+# space removed) per method; the values the frontend sent reach the backend unchanged and its answer goes back unchanged (C02 / C14).
+HANDLER_PASS = {
+    "get_config": r'Ok\(self\.backend\.get_config\(offset,size\)\)',
+    "set_config": r'self\.backend\.set_config\(offset,buf\)\.map_err\(VhostUserError::ReqHandlerError\)',
+    "get_features": r'Ok\(self\.backend\.features\(\)\)',
+    "get_protocol_features": r'Ok\(self\.backend\.protocol_features\(\)\)',
+    "get_queue_num": r'Ok\(self\.num_queuesasu64\)',
+    "set_gpu_socket": r'self\.backend\.set_gpu_socket\(gpu_backend\)\.map_err\(VhostUserError::ReqHandlerError\)',
+    "set_device_state_fd": r'self\.backend\.set_device_state_fd\(direction,phase,file\)\.map_err\(VhostUserError::ReqHandlerError\)',
+    "check_device_state": r'self\.backend\.check_device_state\(\)\.map_err\(VhostUserError::ReqHandlerError\)',
+    "get_shmem_config": r'self\.backend\.get_shmem_config\(\)\.map_err\(VhostUserError::ReqHandlerError\)',
+    "get_shared_object": r'matchself\.backend\.get_shared_object\(uuid\)\{Ok\(shared_file\)=>Ok\(shared_file\),Err\(e\)=>Err\(VhostUserError::ReqHandlerError\(io::Error::other\(e\)\)\),\}',
+    "set_protocol_features": r'self\.acked_protocol_features=features;Ok\(\(\)\)',
+}
+
+
 def top_level_fns(src, span):
     out = []
     depth = 0
@@ -90,5 +107,12 @@ def build():
             u.scan(props, "%s::%s" % (re.sub(r'[^A-Za-z<>]+', '_', hdr.strip('^$'))[-50:], fn), ok,
                    "adapter method %s of `%s` in %s is exactly one call of the same-named inner method with the same arguments in the same order (body: %s)"
                    % (fn, hdr.strip('^$'), rel, body[:120]))
+    hsrc = Source("vhost-user-backend/src/handler.rs")
+    hspan = hsrc.impl_span(r'^impl<T: VhostUserBackend> VhostUserBackendReqHandlerMut for VhostUserHandler<T>')
+    for fn, pat in HANDLER_PASS.items():
+        body = re.sub(r'\s+', '', u.rw.common(hsrc.fn_body(fn, within=hspan))).rstrip(';')
+        u.spans.append(("vhost-user-backend/src/handler.rs", "VhostUserHandler::%s" % fn, __import__("vx").sha(body)))
+        u.scan(["C02", "C14"], "handler_pass_through::%s" % fn, re.fullmatch(pat, body) is not None,
+               "VhostUserHandler::%s only hands its arguments to the device backend, unchanged and in order, and returns its answer (body: %s)" % (fn, body[:120]))
     u.raw("// scan-only unit: no Verus text")
     return u
